@@ -520,6 +520,30 @@ impl Group for Trace {
                 }
             }
         }
+        // the path-bound Prepare before the predicate-bound ones; among those the accepting one of highest priority
+        {
+            let p: Vec<&str> = line.split(' ').collect();
+            let ran: Vec<&String> = l.iter().filter(|e| e.starts_with("prepare")).collect();
+            if ran.len() != 1 {
+                return Some((format!("prepare-choice:{line}"), format!("{} Prepare extensions ran for one request: {out}", ran.len())));
+            }
+            if p.get(5) == Some(&"1") {
+                if ran[0] != "prepare999" {
+                    return Some((format!("prepare-choice:{line}"), format!("a Prepare is bound to the path `/t`, but {} answered: {out}", ran[0])));
+                }
+            } else if let Some(fns) = p.get(4).and_then(|f| parse_list(f)) {
+                let fns: Vec<(i32, bool, String)> = fns.iter().filter_map(|f| { let x: Vec<&str> = f.split(':').collect(); Some((x.first()?.parse().ok()?, *x.get(1)? == "1", format!("prepare{}", x.get(2)?))) }).collect();
+                // an extension added with a priority that is taken replaces the one that held it
+                let fns: Vec<(i32, bool, String)> = fns.iter().enumerate().filter(|(i, f)| !fns[i + 1..].iter().any(|g| g.0 == f.0)).map(|(_, f)| f.clone()).collect();
+                let best = fns.iter().filter(|f| f.1).map(|f| f.0).max();
+                match (best, fns.iter().find(|f| &f.2 == ran[0])) {
+                    (None, _) if ran[0] != "preparenone" => return Some((format!("prepare-choice:{line}"), format!("no predicate accepts the request, but {} answered", ran[0]))),
+                    (Some(b), Some(f)) if !f.1 || f.0 < b => return Some((format!("prepare-choice:{line}"), format!("{} (priority {}, predicate {}) answered although an accepting Prepare of priority {b} is mounted", ran[0], f.0, f.1))),
+                    (Some(_), None) => return Some((format!("prepare-choice:{line}"), format!("an accepting Prepare is mounted, but {} answered", ran[0]))),
+                    _ => {}
+                }
+            }
+        }
         let mut q = String::new();
         for e in l.iter().filter(|e| e.starts_with("prime")) {
             let (tag, seen) = e.trim_start_matches("prime").split_once('@')?;
